@@ -19,7 +19,8 @@ R1 (K6) refs.py: the prefix constant prepended by branch_name_to_ref / tag_name_
    ref_to_branch_name / ref_to_tag_name test with startswith() and slice with len(); "" <-> b"HEAD" is mapped both
    ways; a ref outside the prefix raises rather than being mangled.
 R2 (K8) mapping.py: escape_file_id and unescape_file_id are evaluated abstractly (no execution of repo code: the
-   function ASTs are interpreted) on every string of length <= 3 (thorough: <= 4) over {_, space, FF, s, c, a}:
+   function ASTs are interpreted) on every string of length <= 3 (thorough: <= 4) over the bytes either function mentions
+   (escape character, escaped bytes, code letters — read from the code on every run) plus one neutral byte:
    unescape(escape(x)) == x and escape is injective.  Only when either function uses a construct the evaluator does
    not model do the older syntactic rules decide instead (replace() pairs inverted by the dispatch chain, escape
    character escaped first, unknown code raises).
@@ -93,7 +94,17 @@ def run(ctx):
     from ..absint import Interp, Raised, Unsupported, module_regex_hook
 
     it = Interp(name_hook=module_regex_hook(repo.module(MP).tree), loop_bound=256)
-    alpha = [b"_", b" ", b"\x0c", b"s", b"c", b"a"]
+    # alphabet: every byte either function mentions (escape character, escaped bytes, code letters) and one neutral byte
+    alpha_set = {b"a"}
+    for f_ in (fe, fu):
+        for n in ast.walk(f_):
+            if isinstance(n, ast.Constant) and isinstance(n.value, bytes) and 1 <= len(n.value) <= 2:
+                alpha_set |= {n.value[i : i + 1] for i in range(len(n.value))}
+    for n in ast.walk(repo.module(MP).tree):
+        if isinstance(n, ast.Assign) and isinstance(n.value, ast.Call) and norm(n.value.func) == "re.compile" and any(isinstance(x, ast.Name) and x.id == norm(n.targets[0]) for f_ in (fe, fu) for x in ast.walk(f_)):
+            alpha_set |= {b"_", b" ", b"\x0c", b"s", b"c"}
+    alpha = sorted(alpha_set)
+    ctx.require(3 <= len(alpha) <= 12, f"{where}: escape alphabet not recognised ({alpha})")
     maxlen = 4 if ctx.tier == "thorough" else 3
     rows = [b"".join(t) for k in range(maxlen + 1) for t in itertools.product(alpha, repeat=k)]
     bad, table_ok = [], True
@@ -115,7 +126,7 @@ def run(ctx):
         ctx.info("R2-roundtrip-table", where, f"round-trip table not evaluable ({ex}); the syntactic table rules decide instead")
     if table_ok:
         ctx.fact(len(rows))
-        ctx.check("R2-roundtrip-table", where, not bad, f"unescape_file_id(escape_file_id(x)) == x and escape is injective for all {len(rows)} strings of length <= {maxlen} over {{_, space, FF, s, c, a}}", construct=str(bad[:2]), message=f"file ids do not survive escaping: {bad[:2]} — a file id containing the escape character, a space or a form feed comes back as a different id after a round trip through Git")
+        ctx.check("R2-roundtrip-table", where, not bad, f"unescape_file_id(escape_file_id(x)) == x and escape is injective for all {len(rows)} strings of length <= {maxlen} over the {len(alpha)} bytes the two functions mention plus a neutral one", construct=str(bad[:2]), message=f"file ids do not survive escaping: {bad[:2]} — a file id containing the escape character, a space or a form feed comes back as a different id after a round trip through Git")
     if not table_ok:
         pairs = []
         for n in walk_own(fe):
@@ -271,6 +282,7 @@ def run(ctx):
 
 
 MUTANTS = [
+    Mutant("writer escapes newline, reader does not know the code", MP, "    file_id = file_id.replace(b\"\\x0c\", b\"_c\")\n", "    file_id = file_id.replace(b\"\\x0c\", b\"_c\")\n    file_id = file_id.replace(b\"\\n\", b\"_n\")\n", expect="R2-roundtrip-table"),
     Mutant("rust reader returns the branch parameter still percent-encoded", RS, ".get(\"branch\")\n        .map(|s| dromedary::urlutils::unescape(s))\n        .transpose()?;", ".get(\"branch\")\n        .map(|s| s.to_string());", expect="url-value-encoding"),
     Mutant("set_parent writes under the push remote", "breezy/git/branch.py", "        cs = self.repository._git.get_config()\n        remote = self._get_origin(cs)", "        cs = self.repository._git.get_config()\n        remote = self._get_push_origin(cs)", expect="parent-config-keys"),
     Mutant("tag reader uses the branch prefix", RF, "    if ref.startswith(LOCAL_TAG_PREFIX):\n        return ref[len(LOCAL_TAG_PREFIX) :].decode(\"utf-8\")", "    if ref.startswith(LOCAL_TAG_PREFIX):\n        return ref[len(LOCAL_BRANCH_PREFIX) :].decode(\"utf-8\")", expect="R1-prefix-pair"),
